@@ -10,6 +10,9 @@
     printed* (`if self.use_sigmoid or self.negative_slope or self.use_stochastic_rounding:`), so
     that every value stays in the slot of its own argument;
   * keyword flags (`kwSpec`): printed as `name=text` when their own condition holds.
+  Second fix round: the scale of `quantized_bits` / `quantized_hswish` is tested with
+  `is not None` like every other class (a scale of 0 is printed), and list-valued `scale_axis` /
+  `elements_per_scale` print item by item (`[0,1]`) in all four classes that have them.
   Not printed by any class (kept as recorded findings / untracked): `qnoise_factor` (training-time
   state that may hold a tensor), `var_name`, `use_variables`, `post_training_scale`.
 -/
@@ -25,7 +28,9 @@ def strInt (v : PyVal) : Except Err String :=
 /-- the `alpha` flag shared by most classes: `str(alpha)`, quoted when it is a string -/
 def alphaText (a : PyVal) : String := if a.isStr then "'" ++ a.pyStr ++ "'" else a.pyStr
 
-/-- `str(v).replace(" ", "")` / binary's `list_to_str`: a list prints as `[a,b]` -/
+/-- `list_to_str` of the classes with list-valued axes (`binary`, and since the second fix round
+    `quantized_bits`, `quantized_linear`, `quantized_hswish`): a list prints item by item as
+    `[a,b]`; anything else as `str(v)` -/
 def listOrScalar (v : PyVal) : String :=
   match v with
   | .list l => "[" ++ ",".intercalate (l.map Num.pyStr) ++ "]"
@@ -110,11 +115,10 @@ inductive Conv where
   | alpha                          -- `str(x)`, in single quotes when `x` is a string
   | quoted                         -- `"'" + str(x) + "'"`
   | lit (s : String) (v : PyVal)   -- a constant text (`"keep_negative=False"`), denoting `v`
-  | intOrList                      -- `str(x).replace(" ", "")`
+  | intOrList                      -- `"[" + list_to_str(x) + "]"` for a list, else `str(x)`
   | po2max                         -- `_po2_max_value_to_str(x)`
   | np                             -- `str(np.array(x))`, in single quotes when `x` is a string
   | npRe                           -- `re.sub(r"\[(\d)\]", r"\1", str(x))`, `x` a number or an ndarray
-  | modStr                         -- `str(x).replace(" ", "")` of an attribute of a tf.Module
   deriving DecidableEq, Repr
 
 /-- one printed flag: keyword (`none` = positional), the Python value the text denotes, the text -/
@@ -163,13 +167,6 @@ def Conv.apply : Conv → PyVal → Except Err (PyVal × String)
       if 0 ≤ n ∧ n ≤ 9 then .ok (.int n, toString n) else .ok (v, npListText [.int n])
     | .list l => .ok (v, npListText l)
     | _ => .ok (v, v.pyStr)
-  | .modStr, v =>
-    -- BaseQuantizer is a tf.Module: a list assigned to an attribute is wrapped for tracking and
-    -- `str()` of the wrapper is "ListWrapper([0, 1])" — not a literal, and its "(" makes
-    -- safe_eval drop every argument of the call (recorded finding)
-    match v with
-    | .list l => .ok (v, "ListWrapper([" ++ ",".intercalate (l.map Num.pyStr) ++ "])")
-    | _ => .ok (v, v.pyStr)
 
 /-- one `if cond(self.name): flags.append(text(self.name))` -/
 structure FlagSpec where
@@ -202,10 +199,10 @@ def posSpec : Cls → List FlagSpec
 def kwSpec : Cls → List FlagSpec
   | .quantized_linear =>
     [⟨"keep_negative", .falsy, .lit "False" (.bool false)⟩, ⟨"alpha", .notNone, .np⟩, ⟨"use_stochastic_rounding", .truthy, .int⟩,
-     ⟨"scale_axis", .notNone, .modStr⟩]
+     ⟨"scale_axis", .notNone, .intOrList⟩]
   | .quantized_bits =>
-    [⟨"keep_negative", .falsy, .lit "False" (.bool false)⟩, ⟨"alpha", .truthy, .alpha⟩, ⟨"use_stochastic_rounding", .truthy, .int⟩,
-     ⟨"scale_axis", .notNone, .modStr⟩, ⟨"use_ste", .falsy, .lit "False" (.bool false)⟩, ⟨"elements_per_scale", .notNone, .modStr⟩,
+    [⟨"keep_negative", .falsy, .lit "False" (.bool false)⟩, ⟨"alpha", .notNone, .alpha⟩, ⟨"use_stochastic_rounding", .truthy, .int⟩,
+     ⟨"scale_axis", .notNone, .intOrList⟩, ⟨"use_ste", .falsy, .lit "False" (.bool false)⟩, ⟨"elements_per_scale", .notNone, .intOrList⟩,
      ⟨"min_po2_exponent", .notNone, .str⟩, ⟨"max_po2_exponent", .notNone, .str⟩]
   | .bernoulli | .stochastic_binary =>
     [⟨"alpha", .notNone, .alpha⟩, ⟨"temperature", .ne (.float 6), .str⟩, ⟨"use_real_sigmoid", .falsy, .int⟩]
@@ -227,8 +224,8 @@ def kwSpec : Cls → List FlagSpec
      ⟨"use_ste", .falsy, .lit "False" (.bool false)⟩]
   | .quantized_hswish =>
     -- `keep_negative` is not a constructor argument of this class (always True): never printed
-    [⟨"relu_shift", .always, .str⟩, ⟨"relu_upper_bound", .always, .str⟩, ⟨"alpha", .truthy, .alpha⟩,
-     ⟨"use_stochastic_rounding", .truthy, .int⟩, ⟨"scale_axis", .notNone, .modStr⟩]
+    [⟨"relu_shift", .always, .str⟩, ⟨"relu_upper_bound", .always, .str⟩, ⟨"alpha", .notNone, .alpha⟩,
+     ⟨"use_stochastic_rounding", .truthy, .int⟩, ⟨"scale_axis", .notNone, .intOrList⟩]
 
 /-- names of the options `__str__` can express -/
 def printedNames (c : Cls) : List String := (posSpec c).map (·.name) ++ (kwSpec c).map (·.name)
